@@ -216,8 +216,12 @@ def recipes(quick):
     add(p + '_random_complex', 'size=(2,3)', lambda s: I._random_complex(2, 3, seed=s))
     for tc in (True, False):
         add(p + 'rand_haar_state', f'tag_complex={tc}', lambda s, tc=tc: R.rand_haar_state(4, tag_complex=tc, seed=s))
-    for d in (1, 2, 4):
+    for d in (1, 2, 4, 40):
         add(p + 'rand_haar_unitary', f'dim={d}', lambda s, d=d: R.rand_haar_unitary(d, seed=s))
+    for d in (1, 64, 4097):
+        add(p + 'rand_haar_state', f'dim={d}', lambda s, d=d: R.rand_haar_state(d, seed=s))
+    for d in (2, 33, 70):
+        add(p + 'rand_adjacent_matrix', f'dim={d}', lambda s, d=d: R.rand_adjacent_matrix(d, seed=s))
     for bs in (None, 3):
         for tc in (False, True):
             add(p + 'rand_special_orthogonal_matrix', f'batch={bs},tag_complex={tc}', lambda s, bs=bs, tc=tc: R.rand_special_orthogonal_matrix(3, batch_size=bs, tag_complex=tc, seed=s))
@@ -261,8 +265,15 @@ def recipes(quick):
         add(q + 'rand_F2', f'not_zero={nz},not_one={no}', lambda s, nz=nz, no=no: R.rand_F2(2, 2, not_zero=nz, not_one=no, seed=s))
     for rk in ('matrix', 'int_tuple', 'int_tuple-matrix'):
         add(q + 'rand_SpF2', f'return_kind={rk}', lambda s, rk=rk: R.rand_SpF2(2, return_kind=rk, seed=s))
-    for n in (1, 2, 3):
+    for n in (1, 2, 3, 32, 33, 40):      # 32: the index bases of Sp(2n,F2) cross 2^63
         add(q + 'rand_Clifford_group', f'n={n}', lambda s, n=n: R.rand_Clifford_group(n, seed=s))
+    for n in (8, 31, 32, 33, 40):
+        for rk in ('matrix', 'int_tuple'):
+            add(q + 'rand_SpF2', f'n={n},return_kind={rk}', lambda s, n=n, rk=rk: R.rand_SpF2(n, return_kind=rk, seed=s))
+    for shape in ((), (1,), (70,), (3, 5, 7)):
+        add(q + 'rand_F2', f'size={shape}', lambda s, shape=shape: R.rand_F2(*shape, seed=s))
+    for n in (1, 31, 32, 40):
+        add(q + 'rand_pauli', f'n={n}', lambda s, n=n: R.rand_pauli(n, seed=s))
     for ih in (None, True, False):
         add(q + 'rand_pauli', f'is_hermitian={ih}', lambda s, ih=ih: R.rand_pauli(3, is_hermitian=ih, seed=s))
     # ---- simulator
@@ -395,6 +406,40 @@ def extras(ctx):
     ctx.note('entry points outside the anchored files (not obligations): ' + '; '.join(
         f"{k.split('numqi.')[-1]}: static {'closed' if v['static_closed_with_callees'] else 'NOT closed'}, dynamic {'clean' if v['dynamic_closed'] else 'not clean ' + str(sorted({e for r in v['runs'] for e in r.get('events', [])} | {r['raised'] for r in v['runs'] if 'raised' in r}))}"
         for k, v in out.items()) + ('' if not dis else ' — static/dynamic disagree for: ' + ', '.join(dis)))
+
+
+def size_sweeps():
+    """(program name, label, f(seed)) over a sweep of sizes: small, medium and beyond machine-word boundaries
+    (used by `search` to turn a statically detected leak into a concrete non-reproducible call)"""
+    import numqi
+    R = numqi.random
+    out = []
+    sizes = [1, 2, 3, 5, 8, 13, 16, 17, 31, 32, 33, 40, 48, 63, 64, 65, 80]
+    q = 'numqi.random._spf2.'
+    for n in sizes:
+        for rk in ('matrix', 'int_tuple', 'int_tuple-matrix'):
+            out.append((q + 'rand_SpF2', f'n={n},return_kind={rk}', lambda s, n=n, rk=rk: R.rand_SpF2(n, return_kind=rk, seed=s)))
+        out.append((q + 'rand_Clifford_group', f'n={n}', lambda s, n=n: R.rand_Clifford_group(n, seed=s)))
+        for ih in (None, True, False):
+            out.append((q + 'rand_pauli', f'n={n},is_hermitian={ih}', lambda s, n=n, ih=ih: R.rand_pauli(n, is_hermitian=ih, seed=s)))
+        for nz, no in ((False, False), (True, True)):
+            out.append((q + 'rand_F2', f'size=({2 * n},),not_zero={nz},not_one={no}', lambda s, n=n, nz=nz, no=no: R.rand_F2(2 * n, not_zero=nz, not_one=no, seed=s)))
+    p = 'numqi.random._internal.'
+    for d in (1, 2, 3, 7, 16, 33, 64):
+        out.append((p + 'rand_haar_state', f'dim={d}', lambda s, d=d: R.rand_haar_state(d, seed=s)))
+        out.append((p + 'rand_haar_unitary', f'dim={d}', lambda s, d=d: R.rand_haar_unitary(d, seed=s)))
+        out.append((p + 'rand_adjacent_matrix', f'dim={max(d, 2)}', lambda s, d=d: R.rand_adjacent_matrix(max(d, 2), seed=s)))
+        for size in (None, 3, (2, 3), (2, 1, 4)):
+            out.append((p + 'rand_n_sphere', f'dim={d},size={size}', lambda s, d=d, size=size: R.rand_n_sphere(d, size=size, seed=s)))
+            out.append((p + 'rand_n_ball', f'dim={d},size={size}', lambda s, d=d, size=size: R.rand_n_ball(d, size=size, seed=s)))
+        for k in (None, 1):
+            for kind in ('haar', 'bures'):
+                out.append((p + 'rand_density_matrix', f'dim={d},k={k},kind={kind}', lambda s, d=d, k=k, kind=kind: R.rand_density_matrix(d, k=k, kind=kind, seed=s)))
+    for (dA, dB) in ((1, 1), (2, 5), (6, 6)):
+        for k in (None, 1):
+            out.append((p + 'rand_bipartite_state', f'dimA={dA},dimB={dB},k={k}', lambda s, dA=dA, dB=dB, k=k: R.rand_bipartite_state(dA, dB, k=k, seed=s)))
+        out.append((p + 'rand_separable_dm', f'dimA={dA},dimB={dB}', lambda s, dA=dA, dB=dB: R.rand_separable_dm(dA, dB, k=3, seed=s)))
+    return out
 
 
 def run_recipe(f, seed, prep=None):
@@ -824,27 +869,41 @@ def probe(ctx):
 
 
 def search(ctx, hints):
-    # the probe already runs every translated function on every branch; with a broken proof/correspondence and a clean probe,
-    # widen the seed range for the programs the model flags
+    # the probe already runs every translated function on every branch at a few sizes; with a broken proof/correspondence and a
+    # clean probe, re-run the programs the model flags (and their callers) over a size sweep and a wider seed range
     tr = get_tr(ctx)
+    listed = [e for e in tr.order if e.listed]
     flagged = set(ctx.extra.get('translated_not_closed', []))
     for d in hints:
         t = d['op'].split(' ')
         if len(t) >= 3 and t[1] in ('closed', 'tclosed'):
             flagged.add(t[2])
+    # callers of flagged programs are affected too
+    changed = True
+    while changed:
+        changed = False
+        for e in listed:
+            if e.name not in flagged and any(i < len(tr.order) and tr.order[i].name in flagged for i in callees_py(e.stmts)):
+                flagged.add(e.name); changed = True
     if not flagged:
         return
-    for name, label, f, prep in recipes(False):
+    ctx.note('failing-input search over sizes for: ' + ', '.join(sorted(flagged)))
+    cands = [(n, l, f, None) for (n, l, f) in size_sweeps()] + list(recipes(False))
+    for name, label, f, prep in cands:
         if name not in flagged:
             continue
-        for s in range(40, 52):
+        key = 'repro:' + name.split('numqi.')[-1]
+        if any(x['key'].startswith(key) for x in ctx.failures):
+            continue
+        for s in (0, 1, 7, 40, 41):
             try:
                 ok, (a, b), events, _ = run_recipe(f, s, prep)
             except Exception as e:
-                ctx.fail('repro:' + name.split('numqi.')[-1] + ':raises', f'{name}({label}, seed={s}) raised {type(e).__name__}: {e}', dict(function=name, arguments=label, seed=s)); break
+                ctx.fail(key + ':raises', f'{name}({label}, seed={s}) raised {type(e).__name__}: {e}', dict(function=name, arguments=label, seed=s)); break
             if not ok:
-                ctx.fail('repro:' + name.split('numqi.')[-1], f'{name}({label}, seed={s}) is not reproducible: {describe(a)} vs {describe(b)}',
-                         dict(function=name, arguments=label, seed=s, first=describe(a), second=describe(b), events=events)); break
+                ctx.fail(key, f'{name}({label}, seed={s}) is not reproducible: {describe(a)} vs {describe(b)}',
+                         dict(function=name, arguments=label, seed=s, first=describe(a), second=describe(b), events=events,
+                              how='call twice with this int seed; between the calls re-seed and advance np.random, random and torch global generators')); break
             if events:
-                ctx.fail('repro:' + name.split('numqi.')[-1] + ':interference', f'{name}({label}, seed={s}) touches state outside the seed: {events}',
+                ctx.fail(key + ':interference', f'{name}({label}, seed={s}) touches state outside the seed: {events}',
                          dict(function=name, arguments=label, seed=s, events=events)); break
